@@ -119,6 +119,7 @@ class Retrieve:
         self._running = True
         self._decoding = False
         self._bad_shares = set()
+        self._privkey_checks = [] # Deferreds of the verifier's privkey checks
 
         self.servermap = servermap
         self.verinfo = verinfo
@@ -522,6 +523,10 @@ class Retrieve:
                 d.addCallback(self._try_to_validate_privkey, reader, reader.server)
                 # XXX: don't just drop the Deferred. We need error-reporting
                 # but not flow-control here.
+                if self._verify:
+                    # the verifier's report has to wait for these checks
+                    d.addErrback(lambda f: None)
+                    self._privkey_checks.append(d)
 
     def _try_to_validate_prefix(self, prefix, reader):
         """
@@ -977,7 +982,9 @@ class Retrieve:
                  (reader.shnum, reader))
         self._node._populate_encprivkey(enc_privkey)
         self._node._populate_privkey(privkey)
-        self._need_privkey = False
+        if not self._verify:
+            # a verifier looks at the encrypted private key of every share
+            self._need_privkey = False
 
     def _done(self):
         """
@@ -1003,6 +1010,11 @@ class Retrieve:
         if self._verify:
             ret = self._bad_shares
             self.log("done verifying, found %d bad shares" % len(ret))
+            # report only once every share's private key check has finished
+            # (each of them may still add to ret)
+            d = defer.DeferredList(self._privkey_checks)
+            d.addCallback(lambda ign: eventually(self._done_deferred.callback, ret))
+            return
         else:
             # TODO: upload status here?
             ret = self._consumer
